@@ -66,3 +66,28 @@ Definition model_hash (d : dinput) (v : value) : option (list string) :=
   | Some it => option_map (flat_map event_strings) (run_hash I0 it v VUnit)
   | None => None
   end.
+
+(** ** Debug: the builder-call trace of the model's `fmt`, rendered by Sem/Fmt.v (the transcription of
+    core::fmt's builders), with the field values rendered as support.rs's `impl Debug for A<K>` / `m_fmt` do *)
+From Educe.Sem Require Import Fmt.
+From Educe.Proofs Require Import P_C06.
+
+Definition render0 (alt : bool) (a : fmt_arg) : string :=
+  match a with
+  | FADebug (VAtom z) =>
+      if alt then "A" ^^ decZ (atom_k z) ^^ "<" ^^ nl ^^ decZ (atom_v z) ^^ nl ^^ ">"
+      else "A" ^^ decZ (atom_k z) ^^ "<" ^^ decZ (atom_v z) ^^ ">"
+  | FAVia _ (VAtom z) =>
+      if alt then "M<" ^^ nl ^^ decZ (atom_v z) ^^ nl ^^ ">" else "M<" ^^ decZ (atom_v z) ^^ ">"
+  | _ => "?"
+  end.
+
+Definition model_debug (alt : bool) (d : dinput) (v : value) : option string :=
+  match item_with "fmt" (expanded d) with
+  | Some it =>
+      match run_fmt I0 it v with
+      | Some evs => run_events alt (render0 alt) None evs
+      | None => None
+      end
+  | None => None
+  end.
